@@ -3,6 +3,7 @@ package util
 import (
 	"go/ast"
 	"go/types"
+	"strconv"
 	"strings"
 )
 
@@ -25,7 +26,11 @@ func (m *ImportMap) Add(spec *ast.ImportSpec, pkg *types.Package) {
 		return
 	}
 
-	fullPath := strings.Trim(spec.Path.Value, `"`)
+	// The path is an interpreted ("io") or a raw (`io`) string literal
+	fullPath, err := strconv.Unquote(spec.Path.Value)
+	if err != nil {
+		fullPath = strings.Trim(spec.Path.Value, `"`)
+	}
 
 	var alias string
 	if spec.Name != nil {
